@@ -263,7 +263,7 @@ func emitAllPositions(s sizes, idx *int, emit func(tamperCase)) {
 		*idx = i + 1
 		x := gen.Mix(h.Seed, uint64(i), 78)
 		emit(tamperCase{Kind: s.kind, Ctor: int(x >> 20 % 2), NonceLen: s.nonce, TagLen: s.tag, PtLen: s.pt, AadLen: s.aad,
-			Seed: gen.Mix(h.Seed, uint64(s.kind), uint64(s.nonce), uint64(s.tag), uint64(s.pt), uint64(s.aad)),
+			Seed:   gen.Mix(h.Seed, uint64(s.kind), uint64(s.nonce), uint64(s.tag), uint64(s.pt), uint64(s.aad)),
 			Region: region, Pos: pos,
 			Lay:    []int{layNil, layPrefix, layPrefix, layInPlace}[x%4],
 			Prefix: []int{0, 0, 3, 16}[x>>2%4], Spare: []int{0, 0, 1, 16}[x>>4%4], Guard: []int{0, 1, 1, 2}[x>>6%4]})
